@@ -12,6 +12,13 @@ from cpverif.model import FORCED, OPEN, TAP, TempoModel
 TIME_LIMIT_S = 10 ** 6          # C01's domain: times below 10^6 seconds
 LINE_BREAKS = "\n\r\v\f\x1c\x1d\x1e\x85  "
 
+# Strings that are stable under nothing: not NFC / NFKC normalised, case-folding traps, astral plane,
+# format characters.  None of them is white space, a digit or a line boundary.  Payload generators mix
+# them in because "verbatim" must mean verbatim.
+UNICODE_ODDITIES = ["e\u0301", "\u212b", "\u2126", "\u1100\u1161", "\ufb01", "\uff21\uff42", "\u200d",
+                    "\u00ad", "\u0130", "\u00df", "\u01c5", "\U0001d11e", "\U0001f3b8", "\u0303x",
+                    "\u1e9e", "\u03a9\u0301"]
+
 # ------------------------------------------------------------------------------------------------
 # tempo maps
 # ------------------------------------------------------------------------------------------------
@@ -40,25 +47,44 @@ extreme_bpm_values = st.one_of(
 
 @st.composite
 def tempo_maps(draw, max_segments: int = 24, values=bpm_values, res=resolutions,
-               budget_s: int = TIME_LIMIT_S // 2, min_segments: int = 1):
+               budget_s: int = TIME_LIMIT_S // 2, min_segments: int = 1, allow_big: bool = True):
     """{"res": r, "tempo": [[tick, n], ...]} constructed (not filtered) so that the last tempo
     change happens before ``budget_s`` seconds and at least one more tick fits below the limit."""
     r = draw(res)
     nseg = draw(st.integers(min_segments, max_segments))
+    # size amplification: one map in twelve is LONG (65..300 tempo events, beyond any plausible
+    # block / chunk / bisect threshold in a lookup); it is built by cycling a short drawn pattern so that
+    # the number of draws stays small
+    pattern = None
+    if allow_big and draw(st.integers(0, 11)) == 0:
+        nseg = draw(st.sampled_from([65, 66, 70, 129, 130, 200, 300]))
+        pattern = draw(st.lists(st.tuples(st.integers(1, 5), st.integers(1, max(1, min(4 * r, 500))), values),
+                                min_size=1, max_size=6))
     tempo = []
     tick = 0
     elapsed = Fraction(0)
     budget = Fraction(budget_s)
     prev_spt = None
     for k in range(nseg):
-        n = draw(values)
+        if pattern is not None:
+            pg, pgap, n = pattern[k % len(pattern)]
+        else:
+            n = draw(values)
         if k > 0:
             remaining = budget - elapsed
             max_gap = int(remaining / prev_spt)
             if max_gap < 1:
                 break
-            gap_choice = draw(st.integers(0, 5))
-            if gap_choice == 0:
+            gap_choice = pg if pattern is not None else draw(st.integers(0, 5))
+            if pattern is not None:
+                gap = 1 if pg == 1 else 2 if pg == 2 else pgap
+                gap = max(1, min(gap, max_gap))
+                tick += gap
+                elapsed += gap * prev_spt
+                gap_choice = -1
+            if gap_choice == -1:
+                pass
+            elif gap_choice == 0:
                 gap = 1
             elif gap_choice == 1:
                 gap = 2
@@ -68,9 +94,10 @@ def tempo_maps(draw, max_segments: int = 24, values=bpm_values, res=resolutions,
                 gap = draw(st.integers(1, 64))
             else:
                 gap = draw(st.integers(1, 10 ** 6))
-            gap = max(1, min(gap, max_gap))
-            tick += gap
-            elapsed += gap * prev_spt
+            if gap_choice != -1:
+                gap = max(1, min(gap, max_gap))
+                tick += gap
+                elapsed += gap * prev_spt
         spt = Fraction(60_000, n * r)
         # the new tempo must let at least a couple of ticks fit below the overall limit
         if (TIME_LIMIT_S - elapsed) / spt < 3:
@@ -182,7 +209,8 @@ word_alphabet = st.characters(
     blacklist_characters=LINE_BREAKS + " \t\xa0\x1f",
     blacklist_categories=("Cc", "Cs", "Zs", "Zl", "Zp"))
 words = st.one_of(st.sampled_from(["solo", "soloend", "ENABLE_CHART_DYNAMICS", "x", "a=b", '"q"']),
-                  st.text(alphabet=word_alphabet, min_size=1, max_size=12))
+                  st.text(alphabet=word_alphabet, min_size=1, max_size=12),
+                  st.lists(st.sampled_from(UNICODE_ODDITIES + ["a", "Z", "_"]), min_size=1, max_size=3).map("".join))
 
 
 def merge_track_items(notes, phrases, tevents, sp_first: bool = False) -> list[list]:
@@ -240,8 +268,22 @@ global_texts = st.one_of(
     plain_text,
     plain_text.map(lambda s: "lyric " + s),
     plain_text.map(lambda s: "section " + s),
+    st.lists(st.sampled_from(UNICODE_ODDITIES + ["lyric ", "section ", "a", " "]), min_size=1,
+             max_size=4).map("".join),
 )
 
+
+SONG_EXTRAS = [
+    ("Offset", st.sampled_from(["0", "1", "5", "120", "99999"])),
+    ("PreviewStart", st.sampled_from(["0", "30", "4500"])),
+    ("PreviewEnd", st.sampled_from(["0", "60", "99999"])),
+    ("Difficulty", st.sampled_from(["0", "3", "6"])),
+    ("Player2", st.sampled_from(["bass", "rhythm"])),
+    ("Name", st.sampled_from(['"Song"', '"e\u0301t\u00e9"', '"Offset = 5"'])),
+    ("Artist", '"Artist"'), ("Charter", '"someone"'), ("Album", '"Album"'), ("Year", '", 2018"'),
+    ("Genre", st.sampled_from(['"rock"', '"metal"'])), ("MediaType", '"cd"'),
+    ("MusicStream", '"song.ogg"'), ("GuitarStream", '"guitar.ogg"'), ("DrumStream", '"drums.ogg"'),
+]
 
 # ------------------------------------------------------------------------------------------------
 # whole charts
@@ -250,7 +292,8 @@ global_texts = st.one_of(
 def chart_specs(draw, max_segments: int = 8, max_tracks: int = 2, max_notes: int = 16,
                 max_events: int = 5, max_ts: int = 3, max_anchors: int = 2, tempo_values=bpm_values,
                 headers=None, min_tracks: int = 0, min_notes: int = 0, limit_s: int = TIME_LIMIT_S,
-                max_tick_cap: int | None = None, anchor_max: int = 10 ** 11, res=None):
+                max_tick_cap: int | None = None, anchor_max: int = 10 ** 11, res=None,
+                with_song: bool = True):
     """A well-formed chart spec plus the generation-side facts a check may want:
     returns {"spec": spec, "res": r, "tempo": [...], "max_tick": M, "tracks_model": {...}}."""
     tmap = draw(tempo_maps(max_segments=max_segments, values=tempo_values,
@@ -288,5 +331,15 @@ def chart_specs(draw, max_segments: int = 8, max_tracks: int = 2, max_notes: int
         tracks_model[h] = tsp
         tracks[h] = merge_track_items(tsp["notes"], tsp["phrases"], tsp["tevents"])
     spec = {"res": tmap["res"], "sync": sync, "events": [list(e) for e in evs], "tracks": tracks}
+    # [Song] fields other than Resolution look irrelevant to everything downstream -- which is exactly
+    # why half of the charts carry some, with non-default values, around the Resolution line
+    if with_song and draw(st.booleans()):
+        picks = draw(st.lists(st.sampled_from(SONG_EXTRAS), unique_by=lambda x: x[0], max_size=6))
+        song = [[name, draw(val) if not isinstance(val, str) else val] for name, val in picks]
+        song.insert(draw(st.integers(0, len(song))), ["Resolution", str(tmap["res"])])
+        spec["song"] = song
+    # line formatting (blank / tab padding around body lines) is another dimension that "cannot matter"
+    if draw(st.integers(0, 2)) == 0:
+        spec["fmt"] = draw(st.integers(1, 10 ** 6))
     return {"spec": spec, "res": tmap["res"], "tempo": tmap["tempo"], "max_tick": max_tick,
             "tracks_model": tracks_model}
